@@ -93,11 +93,16 @@ pub fn type_cast<Data: GarnishData>(this: &mut Data) -> Result<Option<Data::Size
             let len = <Data as GarnishData>::DataFactory::number_to_size(len).unwrap_or(Data::Size::zero());
             let mut count = start;
 
-            let mut list_index = this.start_list(len)?;
-            while count <= end {
+            let mut list_index = this.start_list(len.clone())?;
+            // exactly the announced number of items: a float whose increment is absorbed cannot keep the loop going
+            let mut added = Data::Size::zero();
+            while added < len && count <= end {
                 let addr = this.add_number(count.clone())?;
                 list_index = this.add_to_list(list_index.clone(), addr)?;
-                count = count.increment().or_num_err()?;
+                added = added + Data::Size::one();
+                if added < len {
+                    count = count.increment().or_num_err()?;
+                }
             }
 
             this.end_list(list_index).and_then(|r| this.push_register(r))?
